@@ -513,6 +513,12 @@ def lexString (s : State) : Step :=
       | none => .panic
       | some body => emit s pos false (.str body)
 
+/-- `self.data.as_bytes()[1] == x` (evaluated only after `self.data.len() >= 2`) -/
+def secondIs (d : Bytes) (x : Nat) : Bool :=
+  match d[1]? with
+  | some b => b.toNat == x
+  | none => false
+
 /-- `Tokenizer::do_next`; called with non-empty data only -/
 def doNext (s : State) : Step :=
   match s.data[0]? with
@@ -522,9 +528,9 @@ def doNext (s : State) : Step :=
     match punct c with
     | some t => emit s 1 true t
     | none =>
-      if c == 60 && decide (s.data.length ≥ 2) && (match s.data[1]? with | some b => b.toNat == 60 | none => false) then
+      if c == 60 && decide (s.data.length ≥ 2) && secondIs s.data 60 then
         emit s 2 true .shl
-      else if c == 62 && decide (s.data.length ≥ 2) && (match s.data[1]? with | some b => b.toNat == 62 | none => false) then
+      else if c == 62 && decide (s.data.length ≥ 2) && secondIs s.data 62 then
         emit s 2 true .shr
       else if decide (48 ≤ c) && decide (c ≤ 57) then lexNumber s
       else if c == 39 then lexChar s
